@@ -224,6 +224,9 @@ static Mat EIGS_eigenvectors(SVD *S, Index nvec)
     # ---- matrix_U / matrix_V
     for nm, arg, direct in (("matrix_U", "nu", "S->m_m <= S->m_n"), ("matrix_V", "nv", "S->m_m > S->m_n")):
         fm = X.locate(H, nm, cls="PartialSVDSolver")
+        fm, inl = X.inline_value_helpers(fm, H, "PartialSVDSolver")      # the lazy fetch + clamp factored into a private helper is followed
+        if inl:
+            report["PartialSVDSolver::%s inlined helpers" % nm] = inl
         rows = "S->m_m" if nm == "matrix_U" else "S->m_n"
         sm = FSpec(nm, "Mat", [("SVD *", "S"), ("Index", arg)],
                    pre=SVD_INV + [("requested number of vectors is non-negative (documented domain)", "0 <= %s && %s <= NMAX" % (arg, arg)),
